@@ -739,6 +739,9 @@ impl Recv {
                 proto_err!(conn: "recv_data: failed to transition to closed state; stream={:?}", stream.id);
                 return Err(Error::library_go_away(Reason::PROTOCOL_ERROR));
             }
+
+            // No more push promises can arrive on this stream.
+            stream.notify_push();
         }
 
         // Received a frame, but no one cared about it. fix issue#648
@@ -790,10 +793,6 @@ impl Recv {
         // Push the frame onto the recv buffer
         stream.pending_recv.push_back(&mut self.buffer, event);
         stream.notify_recv();
-        if stream.state.is_recv_end_stream() {
-            // No more push promises can arrive on this stream.
-            stream.notify_push();
-        }
 
         Ok(())
     }
